@@ -113,6 +113,40 @@ def h_chain_column(eng, focus):
     eng.check(strs._to_sb(strs._all(conds)), "differs-in-column-22-only", note=f"lines with and without the chain flag differ outside column 22: {s0!r} vs {s1!r}")
 
 
+def h_whitespace_equiv(eng, focus, rtype):
+    """the numbers of the --whitespace line (read as whitespace tokens) are the very texts of the plain
+    line's coordinate / charge / radius fields (read by columns) - for ANY coordinate magnitude"""
+    from pdb2pqr import main, structures
+
+    m = c08._model(eng, focus, 2, 3)
+    atom = structures.Atom(type_=rtype)
+    atom.serial, atom.name, atom.res_name = m["serial"], m["name"], m["res_name"]
+    atom.chain_id, atom.res_seq, atom.ins_code = m["chain"], m["res_seq"], m["ins"]
+    atom.x, atom.y, atom.z, atom.ffcharge, atom.radius = m["x"], m["y"], m["z"], m["charge"], m["radius"]
+    outs = {}
+    with patched(*c08._patches(eng)):
+        line = atom.get_pqr_string(chainflag=False) + "\n"
+        for ws in (False, True):
+            class Args:
+                output_pqr = "out.pqr"
+                whitespace = ws
+
+            sink = []
+            with patched((main, "open", lambda *a, **k: c08._File(sink))):
+                main.print_pqr(Args, [line, "TER\n", "END"], "", None, False)
+            if strs.leaked(sink):
+                raise core.Inconclusive("a C-level string routine bypassed the layout-string model in the writer")
+            outs[ws] = [x for x in sink if x[0:4] == "ATOM" or x[0:6] == "HETATM"]
+    eng.check(len(outs[False]) == 1 and len(outs[True]) == 1, "one-line-per-atom")
+    if len(outs[False]) != 1 or len(outs[True]) != 1:
+        return
+    plain, white = outs[False][0], outs[True][0]
+    fields = [plain[30:38].strip(), plain[38:46].strip()] + plain[46:].split()
+    toks = white.split()[5:]  # record, serial, atom name, residue name, residue number precede the coordinates
+    same = len(toks) == len(fields) and And(*[strs._to_sb(a == b) for a, b in zip(toks, fields)])
+    eng.check(same, "whitespace-numbers-are-the-plain-fields", note=f"plain line {plain!r} vs --whitespace line {white!r}: the number texts differ")
+
+
 # ---------------------------------------------------------------------------
 # K4: neutral termini (table lemma on the real pipeline, PARSE)
 # ---------------------------------------------------------------------------
@@ -121,8 +155,19 @@ STRUCTS = {
     "tripeptide": lambda r: fixtures.peptide_lines([r, "ALA", r]),
     "two-chains": lambda r: fixtures.peptide_lines([r, "ALA", "GLY"], "A") + fixtures.peptide_lines(["SER", r], "B", origin=(0.0, 15.0, 0.0), serial0=200),
     "hidden-chain-end": lambda r: _hidden(r),
+    "protonated-input-no-elements": lambda r: _protonated(r),
     "with-water": lambda r: fixtures.peptide_lines([r, "ALA", r]) + fixtures.residue_lines("WAT", "A", 30, serial0=300, offset=(0.0, 9.0, 2.0), record="HETATM") + ["TER"],
 }
+
+
+def _protonated(r):
+    """the input already carries its hydrogens (a PQR / --pdb-output file fed back in) and has no element columns"""
+    lines, serial = [], 1
+    for i, name in enumerate([r, "ALA", r]):
+        rl = fixtures.residue_lines(name, "A", i + 1, serial, (-3.8 * i, 0.0, 0.0), heavy_only=False)
+        serial += len(rl)
+        lines += rl
+    return [ln[:66] for ln in lines] + ["TER"]
 
 
 def _hidden(r):
@@ -191,6 +236,8 @@ def obligations(tier):
     for focus in (["serial"], ["res_seq", "ins"], ["x", "y"], ["z", "charge"], ["name", "res_name"]):
         obs.append(Obligation(f"chain-column-{'+'.join(focus)}", h_chain_column, dict(focus=focus), group="chain-column", time_cap=1200))
     # --whitespace changes spacing only: the real print_pqr writes one line per atom for every serial / record type (C08's harness)
+    for focus in (["x", "y"], ["y", "z"], ["x", "z"]) if tier == "thorough" else (["x", "y"], ["z"]):
+        obs.append(Obligation(f"whitespace-equiv-{'+'.join(focus)}", h_whitespace_equiv, dict(focus=focus, rtype="ATOM"), group="whitespace-equiv", time_cap=1500))
     for rtype in ("ATOM", "HETATM"):
         obs.append(Obligation(f"whitespace-keeps-lines-{rtype}", c08.h_roundtrip, dict(focus=["serial"], rtype=rtype, ws=True, kc=False, serial_max=99999), group="roundtrip", time_cap=1200))
     # --drop-water equals deleting the water records (C07's record harness, with waters in HETATM and in ATOM records)
